@@ -37,7 +37,7 @@ META = {
 
 A_HOST = "app.example.com"
 SPELL = {
-    ":": [":"], "/": ["/"], "\\": ["\\"], "@": ["@"], "?": ["?"], "#": ["#"], ".": ["."], "[": ["["], "]": ["]"],
+    ":": [":"], "/": ["/"], "B": ["\\"], "@": ["@"], "?": ["?"], "#": ["#"], ".": ["."], "[": ["["], "]": ["]"],
     "%": ["%2F", "%5C", "%40", "%3A", "%23", "%3F", "%2f", "%5c"],
     "T": ["\t", "\n", "\r"], "S": [" "], "C": ["\x01", "\x1f", "\x00", "\x0b", "\x0c", "\x1b"],
     "H": ["http", "HTTP", "hTtP"], "Hs": ["https", "HTTPS", "HttpS"],
@@ -70,21 +70,23 @@ def spell(tokens, variant: int, a_host: str | None = None) -> str:
 def klass(role: str, loc) -> str:
     """Input class for the violation signature (finding identification only, never part of the verdict)."""
     if role == "rt":
-        if "\\" in loc:
+        if "B" in loc:
             return "rt-backslash-in-authority"
         if "a" in loc and "8" in loc:
             return "rt-allowlisted-host-other-port"
         return "rt-other"
     k = 0
-    while k < len(loc) and loc[k] in ("/", "\\", "T", "S", "C"):
+    while k < len(loc) and loc[k] in ("/", "B", "T", "S", "C"):
         k += 1
-    if "\\" in loc[:k]:
+    if "B" in loc[:k]:
         return "orig-slash-backslash-authority"
+    if sum(1 for t in loc[:k] if t == "/") >= 3:
+        return "orig-extra-slashes-authority"
     return "orig-other"
 
 
 def S(xs) -> Raw:
-    return Raw("{" + ",".join('"' + x.replace("\\", "\\\\") + '"' for x in xs) + "}")
+    return Raw("{" + ",".join('"' + x + '"' for x in xs) + "}")
 
 
 # ------------------------------------------------------------------ stub IdP / clock
@@ -167,27 +169,27 @@ def _run(ctx: Ctx) -> None:
     from vgi_rpc.rpc import RpcServer
 
     # ------------------------------------------------------------ 1. TLC: model sanity at small bounds
-    flat_q = [":", "/", "\\", "@", "H", "Hs", "l", "e", "x", "#", "?", "."]
-    small = {"FlatAlphabet": S(flat_q + ["T", "S", "%", "8"]), "FlatLen": 3,
-             "TailAlphabet": S(["e", "l", "a", ":", "/", "\\", "@", "?", "#", ".", "%", "S", "C", "T", "8", "[", "]", "i"]),
-             "TailLen": 2 if quick else 3, "PrefixSchemes": S(["H", "Hs"]), "PrefixSlashes": S(["/", "\\"]), "BaseScheme": "H"}
+    flat_q = [":", "/", "B", "@", "H", "Hs", "l", "e", "x", "#", "?", "."]
+    small = {"FlatAlphabet": S(flat_q + ["T", "S", "%", "8"]), "FlatLen": 2 if quick else 3,
+             "TailAlphabet": S(["e", "l", "a", ":", "/", "B", "@", "?", "#", ".", "%", "S", "C", "T", "8", "[", "]", "i"]),
+             "TailLen": 2 if quick else 3, "PrefixSchemes": S(["H", "Hs"]), "PrefixSlashes": S(["/", "B"]), "BaseScheme": "H"}
     sanity = ["KindTotal", "WhitespaceInvisible", "BackslashIsSlash", "FragmentIrrelevant", "PathAbsoluteStays",
               "EscapeIsNoDelimiter"]
     fams = [f + "(0)" for f in ("RtFlat", "RtTails", "RtNeigh", "OrigFlat", "OrigTails", "OrigNeigh")]
-    for base in ("H", "Hs"):
-        enumerate_families(ctx, "data", "Url", fams, constants={**small, "BaseScheme": base}, invariants=sanity,
-                           name=f"Url:model-sanity(base={base})")
+    for base in (("H",) if quick else ("H", "Hs")):
+        enumerate_families(ctx, "data", "Url", [f for f in fams if not (quick and "Neigh" in f)], constants={**small, "BaseScheme": base}, invariants=sanity,
+                           name=f"Url:model-sanity(base={base})", emit=False)
 
     # ------------------------------------------------------------ 2. TLC: enumerate the case space + reference verdict
     if quick:
         consts = {"FlatAlphabet": S(flat_q), "FlatLen": 3,
-                  "TailAlphabet": S(["e", "l", "a", ":", "/", "\\", "@", "#", "8"]), "TailLen": 4,
+                  "TailAlphabet": S(["e", "l", "a", ":", "/", "B", "@", "8"]), "TailLen": 4,
                   "PrefixSchemes": S(["H", "Hs"]), "PrefixSlashes": S(["/"]), "BaseScheme": "H"}
     else:
         consts = {"FlatAlphabet": S(flat_q + ["T", "S"]), "FlatLen": 4,
-                  "TailAlphabet": S(["e", "l", "a", ":", "/", "\\", "@", "?", "#", ".", "%", "S", "T", "8"]), "TailLen": 4,
+                  "TailAlphabet": S(["e", "l", "a", ":", "/", "B", "@", "?", "#", ".", "%", "S", "T", "8", "[", "]"]), "TailLen": 4,
                   "PrefixSchemes": S(["H", "Hs"]), "PrefixSlashes": S(["/"]), "BaseScheme": "H"}
-    cases = enumerate_families(ctx, "data", "Url", fams, constants=consts, invariants=["KindTotal"], name="Url:enumerate")
+    cases = enumerate_families(ctx, "data", "Url", fams, constants=consts, name="Url:enumerate")
     ctx.exhaustive = True
     ctx.rule = ("case = (role, config, token string) enumerated by TLC (all strings up to the bound in each family); "
                 "non-trivial = distinct (role, config, concrete string, path into the real code: validator / fast path / "
